@@ -52,6 +52,11 @@ def make_body(kind, name, quat):
         H.claim_eq("surface_area", poly.surface_area, total)
         H.claim_all_eq("centroid", poly.centroid, [m1[k] / Vol for k in range(3)])
         H.claim_all_eq("inertia_tensor", poly.inertia_tensor, O.inertia_from_moments(m2))
+        H.claim_eq("get_face_area(int)", poly.get_face_area(1)[0], areas[1])
+        sub = poly.get_face_area([2, 0])
+        H.claim_eq("get_face_area(list)[0]", sub[0], areas[2])
+        H.claim_eq("get_face_area(list)[1]", sub[1], areas[0])
+        H.claim("num_vertices/num_faces", poly.num_vertices == len(P) and poly.num_faces == len(faces))
         H.claim_all_eq("vertices_unchanged", poly.vertices, P)
 
     return body
